@@ -3,6 +3,7 @@ package engine
 import (
 	"go/types"
 	"fmt"
+	"os"
 	"strings"
 
 	"golang.org/x/tools/go/ssa"
@@ -31,8 +32,12 @@ var (
 
 const maxInlinePaths = 12
 
-func inlinable(f *ssa.Function) bool {
-	if f == nil || f.Blocks == nil || f.Pkg == nil || f.Parent() != nil {
+func inlinable(f *ssa.Function) bool { return inlinableFn(f, false) }
+
+// inlinableFn: closures are expanded only when called directly through their MakeClosure (a local helper such as
+// `fail := func() (T, error) {…}`), where the bindings of their free variables are known.
+func inlinableFn(f *ssa.Function, closure bool) bool {
+	if f == nil || f.Blocks == nil || f.Pkg == nil || (f.Parent() != nil) != closure {
 		return false
 	}
 	pp := f.Pkg.Pkg.Path()
@@ -93,10 +98,17 @@ func calleePaths(f *ssa.Function) []calleePath {
 // inlineCall returns the forked successor states for an inlinable call, or nil when the call is not expanded.
 func (q *PathQuery) inlineCall(st *PathState, call *ssa.Call) []*PathState {
 	f := CalleeFn(call)
-	if f == q.Fn || !inlinable(f) {
+	mc, direct := call.Call.Value.(*ssa.MakeClosure)
+	if os.Getenv("FRPSA_DEBUG_INLINE") != "" {
+		fmt.Fprintf(os.Stderr, "inline? %v callee=%v direct=%v value=%T\n", call, f, direct, call.Call.Value)
+	}
+	if f == q.Fn || !(inlinable(f) || direct && inlinableFn(f, true)) {
 		return nil
 	}
 	paths := calleePaths(f)
+	if os.Getenv("FRPSA_DEBUG_INLINE") != "" && direct {
+		fmt.Fprintf(os.Stderr, "  paths=%d inlinable=%v failed=%v\n", len(paths), inlinableFn(f, true), inlineFailed[f])
+	}
 	if paths == nil {
 		return nil
 	}
@@ -115,6 +127,13 @@ func (q *PathQuery) inlineCall(st *PathState, call *ssa.Call) []*PathState {
 		if pr, ok := v.(*ssa.Parameter); ok {
 			if b, ok := bind[pr]; ok {
 				return b
+			}
+		}
+		if fv, ok := v.(*ssa.FreeVar); ok && direct {
+			for i, x := range f.FreeVars {
+				if x == fv && i < len(mc.Bindings) {
+					return mc.Bindings[i]
+				}
 			}
 		}
 		return v
